@@ -1,7 +1,71 @@
-//! mvh_fs — not built yet.
+//! probe (temporary)
+use mila::*;
 use mvh::util::*;
 
 fn main() {
     install_panic_hook();
-    usage("mvh_fs: not implemented yet");
+    let locs: Vec<(&str, PathLocalizer)> = vec![
+        ("NoOp", PathLocalizer::NoOp(NoOpPathLocalizer {})),
+        ("FE9", PathLocalizer::FE9(FE9PathLocalizer {})),
+        ("FE14", PathLocalizer::FE14(FE14PathLocalizer {})),
+    ];
+    for p in ["", "/", ".", "..", "x/..", "m", "m/", "a/b/", "a/b", " /x", "a/./b", "./x", "x/.", "/a/b", "a//b", "a/b//", "..x/y", ".h", "a/ /b"] {
+        for (n, l) in &locs {
+            let r = catch(|| l.localize(p, &Language::EnglishNA).map_err(|e| e.to_string()));
+            println!("{:?} {} -> {:?}", p, n, r);
+        }
+    }
+    let root = std::env::temp_dir().join(format!("mvhprobe{}", std::process::id()));
+    let l0 = root.join("l0");
+    let l1 = root.join("l1");
+    std::fs::create_dir_all(l0.join("a")).unwrap();
+    std::fs::create_dir_all(l1.join("m/@E")).unwrap();
+    std::fs::create_dir_all(l1.join("m/k.bin")).unwrap();
+    std::fs::create_dir_all(l1.join("m/.hd")).unwrap();
+    std::fs::write(l0.join("a/z"), b"1").unwrap();
+    std::fs::write(l0.join("a.b"), b"2").unwrap();
+    std::fs::write(l1.join("a.b"), b"3").unwrap();
+    std::fs::write(l1.join("m/f.bin"), b"3").unwrap();
+    std::fs::write(l1.join("m/.h"), b"3").unwrap();
+    std::fs::write(l1.join("m/.hd/y.bin"), b"3").unwrap();
+    std::fs::write(l1.join("m/k.bin/x.bin"), b"3").unwrap();
+    std::fs::write(l1.join("m/@E/f.bin"), b"4").unwrap();
+    std::fs::write(l1.join("f.bin"), b"4").unwrap();
+    let fs = LayeredFilesystem::new(
+        vec![l0.display().to_string(), l1.display().to_string()],
+        Language::EnglishNA,
+        Game::FE14,
+    )
+    .unwrap();
+    for d in ["", "m", "m/", "a", "a.b", "q", "m/f.bin", "m/f.bin/", "."] {
+        for g in [None, Some("*"), Some("*.bin"), Some("**/*.bin"), Some("**/*"), Some("x*"), Some("f*")] {
+            println!("list {:?} {:?} -> {:?}", d, g, fs.list(d, g, false).map_err(|e| e.to_string()));
+        }
+        println!("subdirs {:?} -> {:?}", d, fs.subdirectories(d, false).map_err(|e| e.to_string()));
+        println!("list loc {:?} -> {:?}", d, fs.list(d, None, true).map_err(|e| e.to_string()));
+        println!("subdirs loc {:?} -> {:?}", d, fs.subdirectories(d, true).map_err(|e| e.to_string()));
+    }
+    for p in ["f.bin", "f.bin/", "m", "m/", "", "m/f.bin/x", "q"] {
+        println!(
+            "{:?}: exists {:?} file {:?} dir {:?} resolve {:?} read {:?} | loc: exists {:?} file {:?} dir {:?} resolve {:?} read {:?}",
+            p,
+            fs.exists(p, false).ok(),
+            fs.file_exists(p, false).ok(),
+            fs.directory_exists(p, false).ok(),
+            fs.resolve(p, false),
+            fs.read(p, false).map_err(|e| e.to_string()),
+            fs.exists(p, true).ok(),
+            fs.file_exists(p, true).ok(),
+            fs.directory_exists(p, true).ok(),
+            fs.resolve(p, true),
+            fs.read(p, true).map_err(|e| e.to_string()),
+        );
+    }
+    for p in ["f.bin/", "m", "", "m/f.bin/x/y", "n1/n2/f", "f.bin", "m/"] {
+        println!("write {:?} -> {:?}", p, fs.write(p, b"zz", false).map_err(|e| e.to_string()));
+        println!("write loc {:?} -> {:?}", p, fs.write(p, b"zz", true).map_err(|e| e.to_string()));
+        println!("create_dir {:?} -> {:?}", p, fs.create_dir(p, false).map_err(|e| e.to_string()));
+    }
+    let _ = std::process::Command::new("find").arg(&root).status();
+    std::fs::remove_dir_all(&root).unwrap();
 }
